@@ -147,7 +147,10 @@ check("C10",
       "non-Hermitian mode); each is replayed into the real block_diagonalize on numpy/sparse dyadic values and the "
       "recorded event stream is validated by TLC against Engine.tla: every returned value must equal the undisturbed "
       "computation (itself validated against LeastAction.tla), values handed out earlier are re-read (no mutation), "
-      "input objects are fingerprinted again.",
+      "input objects are fingerprinted again. Further input kinds: opaque algebra elements, BlockSeries over the caller's "
+      "own dictionary, sympy matrices, non-Hermitian problems with complex levels; operator-valued (second-quantised) "
+      "computations are run in three request histories and TLC (Trace_Fock) decides that the elements denote the same "
+      "operators.",
       ENG, "TLA+ engine model (TLC exhaustive) + TLC-generated schedules replayed + trace validation", "DESIGN.md §4 C10")
 check("C11",
       "MC_Engine with faults of every class at every point of every interleaving shows the protocol leaves no in-flight "
